@@ -113,8 +113,9 @@ def check_case(ctx, case, enum=False, cache=None):
             ok = vk.verify(sig, payload, hashfunc=None if use_default else hf, sigdecode=dec)
         elif entry == "sign_digest":
             digest = payload
-            sig = sk.sign_digest(as_type(digest, ptype), sigencode=enc, allow_truncate=at, **kw)
-            ok = vk.verify_digest(sig, as_type(digest, case.get("vtype", "bytes")), sigdecode=dec, allow_truncate=at)
+            imp = {} if (at is False and dd % 2) else {"allow_truncate": at}     # default left implicit
+            sig = sk.sign_digest(as_type(digest, ptype), sigencode=enc, **imp, **kw)
+            ok = vk.verify_digest(sig, as_type(digest, case.get("vtype", "bytes")), sigdecode=dec, **imp)
         elif entry == "sign_deterministic":
             digest = hf(payload).digest()
             extra = bytes.fromhex(nonce[1]) if nonce[0] == "rfc" else b""
@@ -124,9 +125,10 @@ def check_case(ctx, case, enum=False, cache=None):
         elif entry == "sign_digest_deterministic":
             digest = payload
             extra = bytes.fromhex(nonce[1]) if nonce[0] == "rfc" else b""
+            imp = {} if (at is False and dd % 2) else {"allow_truncate": at}
             sig = sk.sign_digest_deterministic(as_type(digest, ptype), hashfunc=hf, sigencode=enc, extra_entropy=extra,
-                                               allow_truncate=at)
-            ok = vk.verify_digest(sig, digest, sigdecode=dec, allow_truncate=at)
+                                               **imp)
+            ok = vk.verify_digest(sig, digest, sigdecode=dec, **imp)
         elif entry == "sign_number":
             number = int.from_bytes(payload, "big")
             r, s = sk.sign_number(number, **kw)
